@@ -27,10 +27,10 @@ fn shape_name(i: usize) -> &'static str {
     [
         "chan_existing", "chan_missing", "chan_list_rep", "nick_own", "nick_other", "nick_missing", "nick_list_rep", "empty",
         "long", "multibyte", "mask_wild", "mask_long_literal", "number", "number_extreme", "modestr", "modestr_switch",
-        "text", "server", "key", "prefixed_chan", "garbage", "qmask_multibyte", "cap_word",
+        "text", "server", "key", "prefixed_chan", "garbage", "qmask_multibyte", "cap_word", "list_huge",
     ][i]
 }
-const N_SHAPES: usize = 23;
+const N_SHAPES: usize = 24;
 
 fn gen_param(r: &mut Rng, shape: usize, own: &str) -> String {
     let chans = ["#mix", "#by", "#solo", "&loc"];
@@ -85,7 +85,13 @@ fn gen_param(r: &mut Rng, shape: usize, own: &str) -> String {
             (0..n).map(|_| (33 + r.below(94)) as u8 as char).collect()
         }
         21 => ["?*!*@*", "*é*", "?", "??", "ż*", "*ć", "?ółć!*@*", "*!*é@*", "é?*"][r.below(9)].to_string(),
-        _ => ["LS", "LIST", "REQ", "END", "302", "301", "multi-prefix", "multi-prefix bogus", "ls"][r.below(9)].to_string(),
+        22 => ["LS", "LIST", "REQ", "END", "302", "301", "multi-prefix", "multi-prefix bogus", "ls"][r.below(9)].to_string(),
+        _ => {
+            // a comma list of hundreds of short names: one command, tens of kilobytes of replies
+            let item = ["x", "#q", "by1", "fz", "#mix", "*"][r.below(6)];
+            let n = std::cmp::min(r.range(150, 600), 1800 / (item.len() + 1));
+            std::iter::repeat(item).take(n).collect::<Vec<_>>().join(",")
+        }
     }
 }
 
